@@ -108,6 +108,25 @@ class Run:
     def require(self, *clauses):
         self.required_clauses.update(clauses)
 
+    def _trusted(self):
+        """what the verdicts rest on, derived from the back ends that actually produced results in this run"""
+        tb = list(dict.fromkeys(self.trusted_base))
+        backends = {o.backend for o in self.obligations}
+        def add(x):
+            if x not in tb:
+                tb.append(x)
+        if any(b.startswith("z3") or b.startswith("cvc5") for b in backends):
+            add("z3 5.1 (cvc5 1.0 as second opinion for pyvc obligations)")
+        if any(getattr(o, "bounded", False) for o in self.obligations) or self.configs:
+            add("hdlvc: Amaranth 0.5.10 lowering to NIR + vf/hdl/nir.py translation to bit-vectors (co-simulated against amaranth.sim per configuration)")
+        if any(k for k in self.functions if "proved" in str(self.functions[k])):
+            add("pyvc: vf/pyvc/engine.py (symbolic execution of the Python subset; cross-checked against CPython in C02)")
+        if "native evaluation" in backends or any("native" in b for b in backends):
+            add("CPython executing the real code (bounded runtime contracts)")
+        if any("lean" in str(k).lower() for k in self.extra):
+            add("Lean 4.33 + Mathlib (lemmas/*.lean, hash-checked acceptance)")
+        return tb
+
     def canary(self, name, refuted):
         """A must-fail probe: `refuted` must be True (solver said sat), else the harness is vacuous."""
         self.canaries_total += 1
@@ -162,7 +181,7 @@ class Run:
             "failed": n_fail,
             "undecided": n_und,
             "checker_cmd": checker_cmd or f"./check {self.prop_id} --tier {self.tier}",
-            "trusted_base": self.trusted_base,
+            "trusted_base": self._trusted(),
             "evaluations": max(self.configs, 1) if self.configs else max(n_ob, 1),
             "distinct_nontrivial": len(self.nontrivial),
             "rule": rule,
